@@ -33,4 +33,19 @@ CLAIMS = {
                  "every constructor and in-place effect keeps the length a whole number of symbols - the inductive step that stands in for all histories.",
         "note": TRUST + "bitvec extend_from_bitslice/drain/truncate semantics trusted (model rows).",
     },
+    "C04": {
+        "technique": "endianness/bit-order scan of all resolved load/store/view call sites + guard rows (try_from, from_raw) + head-alignment typestate over every Seq constructor and in-place effect",
+        "level": "Decides the structural necessary conditions of the documented packing: all integer reads are load_le, writes store/store_le, views Lsb0; "
+                 "usize::try_from refuses exactly when bits > 64 with the documented payload; KmerStorage word decomposition for usize/u64/u128; "
+                 "from_raw compares symbols with symbols (n <= bits/BITS) and truncates to n*BITS; every Seq constructor/effect yields a vector "
+                 "starting at bit 0 (bitvec head column), which into_raw/from_raw need.",
+        "note": TRUST + "The numeric result of bitvec load_le/store on word-straddling regions is trusted; little-endian target assumed for native `store`.",
+    },
+    "C08": {
+        "technique": "guard table for KmerIter/try_from/from_str + bit-extent rows for Pack/Deref/Display + storage rows",
+        "level": "Decides the exact KmerIter transition (same row as windows(K)), kmers() initial state, try_from Ok iff len=K with payload, from_str order "
+                 "(length test, strict parse with ?, try_from), Display chunking of storage[0,K*BITS) by BITS through load_le/unsafe_from_bits/to_char, "
+                 "Deref extent, From<Kmer> for Seq order, and the KmerStorage to_bitarray/from_bitslice rows for all three storage types.",
+        "note": TRUST + "kmer! is macro_rules glue over dna! (C16) and unsafe_from_seqslice (decided here); bitvec chunks/load_le trusted.",
+    },
 }
